@@ -99,24 +99,25 @@ def unit_xlsx_row_writer_write_row():
         # A-XLSX: write_string answers 0 when the cell is stored as given and a negative number when it is beyond the limits of the format (then skipped or truncated)
         sb = st.copy(); r = fresh(INT, "write_result")[0]; sb.pc.append(r.z < 0); sb.ghost["beyond_limits"] = True; yield sb, r
         st.ghost["cells_written"] = Sym(INT, G(st, "cells_written") + 1); yield st, 0
+    def RICH(z): return z3.And(z3.PrefixOf(z3.StringVal("<r>"), z), z3.SuffixOf(z3.StringVal("</r>"), z))      # what xlsxwriter would copy into the workbook as rich text markup
     def too_big(st, upto):
         row = st.ghost["row"]; j = z3.Int("j!tb")
         return z3.Or(G(st, "line0") >= ROWMAX, row.length > COLMAX, z3.Exists([j], z3.And(0 <= j, j < upto, z3.Length(row.at(j)) > STRMAX)))
     def sf_pre_ok(ex, st, k):
         kk = lift(k).z; row = st.ghost["row"]; j = z3.Int("j!po"); flag = lift(st.frames[-1].env["exceeds_excel_limits"]).z
-        return Sym(BOOL, z3.And(flag == too_big(st, kk), z3.ForAll([j], z3.Implies(z3.And(0 <= j, j < kk), ENC(row.at(j))))))
+        return Sym(BOOL, z3.And(flag == too_big(st, kk), z3.ForAll([j], z3.Implies(z3.And(0 <= j, j < kk), z3.And(ENC(row.at(j)), z3.Not(RICH(row.at(j))))))))
     def c_fits(ex, st):
         row = st.ghost["row"]; j = z3.Int("j!cf")
-        return Sym(BOOL, z3.And(z3.Not(too_big(st, row.length)), z3.ForAll([j], z3.Implies(z3.And(0 <= j, j < row.length), ENC(row.at(j)))), z3.BoolVal(not st.ghost.get("beyond_limits"))))
+        return Sym(BOOL, z3.And(z3.Not(too_big(st, row.length)), z3.ForAll([j], z3.Implies(z3.And(0 <= j, j < row.length), z3.And(ENC(row.at(j)), z3.Not(RICH(row.at(j)))))), z3.BoolVal(not st.ghost.get("beyond_limits"))))
     def c_refused(ex, st):
         row = st.ghost["row"]; j = z3.Int("j!cr")
-        return Sym(BOOL, z3.Or(too_big(st, row.length), z3.Exists([j], z3.And(0 <= j, j < row.length, z3.Not(ENC(row.at(j))))), z3.BoolVal(bool(st.ghost.get("beyond_limits")))))
+        return Sym(BOOL, z3.Or(too_big(st, row.length), z3.Exists([j], z3.And(0 <= j, j < row.length, z3.Or(z3.Not(ENC(row.at(j))), RICH(row.at(j))))), z3.BoolVal(bool(st.ghost.get("beyond_limits")))))
     def c_nothing_written(ex, st):
         return Sym(BOOL, z3.Or(z3.BoolVal(bool(st.ghost.get("beyond_limits"))), z3.And(G(st, "cells_written") == 0, lift(st.heap[st.ghost["loc"].oid]["_line"]).z == G(st, "line0"), lift(st.heap[st.ghost["loc"].oid]["_cell"]).z == 0)))
     def make(ctx):
         c = Contract("rowio.XlsxRowWriter.write_row", setup,
                 returns=[Clause("cells_written == len(row)", "every-item-is-written-as-given", props=["C16"]), Clause("loc._line == line0 + 1 and loc._cell == 0", "advances-to-the-next-row", props=["C16"]),
-                         Clause(c_fits, "returns-only-if-the-row-is-within-the-limits-of-the-file-format-(rows,-columns,-characters-per-cell)-and-every-cell-can-be-encoded", props=["C16"])],
+                         Clause(c_fits, "returns-only-if-the-row-is-within-the-limits-of-the-file-format-(rows,-columns,-characters-per-cell)-every-cell-can-be-encoded-and-none-looks-like-rich-text-markup", props=["C16"])],
                 raises={"DataFormatError": [Clause(c_refused, "refuses-only-a-row-the-file-format-cannot-hold", props=["C16", "C10"]),
                                             Clause(c_nothing_written, "a-refused-row-is-refused-as-a-whole:-no-cell-written-the-position-unchanged-(the-backstop-on-xlsxwriter's-own-answer-aside)", props=["C16"])]},
                 loops={0: LoopSpec(invariants=["pre_ok(_i0)"], havoc={"item": STR, "exceeds_excel_limits": BOOL}),
